@@ -109,20 +109,15 @@ Definition plan_tick (R : nat -> Z) (pre : list event) : nat := fst (vplan R 0 t
 
 (** * The timeline around the track *)
 
-(* Python round(x) of an exact value: to the nearest integer, ties to the even one *)
-Definition rhe (x : Q) : Z :=
-  let f := Qfloor x in
-  match ((x - inject_Z f) ?= (1 # 2))%Q with
-  | Lt => f
-  | Gt => f + 1
-  | Eq => if Z.even f then f else f + 1
-  end.
-
-(* Timeline.tick, last line:
-     self.current_time = round((self.current_time + self.tick_duration) * self.ticks_per_beat) / self.ticks_per_beat
-   with tick_duration = 1.0 / ticks_per_beat: after a change the time is put on the NEW tick grid *)
-Definition tl_next (tpb : Z) (now : Q) : Q :=
-  rhe ((now + 1 / inject_Z tpb) * inject_Z tpb) # Z.to_pos tpb.
+(* Timeline.tick, last line (repaired code):
+     self.current_time, self._tick_grid = advance_on_tick_grid(self.current_time, self.ticks_per_beat, self._tick_grid)
+   isobar/util.py advance_on_tick_grid keeps the time at  origin + n / ticks_per_beat;  when the resolution differs
+   from the one of the previous tick the origin is re-anchored at the time reached, so that in exact arithmetic
+   EVERY tick advances the time by exactly 1 / (the resolution in force on that tick): after a change at the exact
+   time t0 the time m ticks later is t0 + m / tpb2 (no rounding onto the new grid).  That the float computation
+   stays within rounding error of this exact value is Base/FloatGrid.v, retick_run_exact.
+   Qred keeps the representation small; it does not change the value. *)
+Definition tl_next (tpb : Z) (now : Q) : Q := Qred (now + 1 / inject_Z tpb).
 
 (* Timeline.current_time at the beginning of tick k (tick j < k made at the resolution R j) *)
 Fixpoint tl_time (R : nat -> Z) (k : nat) : Q :=
@@ -131,8 +126,8 @@ Fixpoint tl_time (R : nat -> Z) (k : nat) : Q :=
   | S j => tl_next (R j) (tl_time R j)
   end.
 
-(* if round(action.time - self.current_time, 8) <= 0 *)
-Definition action_due_v (time now : Q) : bool := Qle_bool (round8 (time - now)) 0.
+(* the due test is the one of Sched/Interp.v: round(action.time - self.current_time, 8) <= 0 *)
+Definition action_due_v (time now : Q) : bool := action_due time now.
 
 Fixpoint find_start_v (fuel : nat) (R : nat -> Z) (time : Q) (k : nat) (now : Q) : option nat :=
   match fuel with
